@@ -23,6 +23,13 @@ SAMPLES = [{"id": 1, "name": "x", "tags": ["a"], "owner": {"n": 1, "site": {"u":
 SAMPLES_NOIMPORT = [{"id": 1, "n": 2}]
 
 
+# preambles that begin and / or end with a quote character (string statements, docstring-like blocks)
+QUOTED_PREAMBLES = (
+    '"marker"', '""', '"""note"""\nNAME = "value"', "'x'", '"a" "b"', 'X = "v"', '"doc"\nY = 1', "\'\'\'d\'\'\'\nZ = \'z\'", '"a", "b"',
+    'EMPTY = ""', '""\nX = 1', 'X = ["", ""]',
+)
+
+
 def _cases(tier):
     L = 2 if tier == "quick" else 3
     for k in range(1, L + 1):
@@ -41,7 +48,7 @@ def _cases(tier):
     for fw in FWS:
         for pre in ("import os\nX = os.sep", "class Helper:\n    pass", "# a\n# b\n\nY = [\n    1,\n]", "    # indented comment", "X = 1\n\n\n\nZ = 2",
                     "X = '{{ y }}'  # {% if z %}", "def f():\n    return {\n        'k': 1,\n    }", "from typing import Tuple\nT = Tuple[int, int]",
-                    "X = 1  \n\n# trailing spaces above", "\tY = 2", "X = 1\n    \nY = 2", 'S = """a\n  \n\t\nb"""', "# 100% sure\nP = '%d items' % 3"):
+                    "X = 1  \n\n# trailing spaces above", "\tY = 2", "X = 1\n    \nY = 2", 'S = """a\n  \n\t\nb"""', "# 100% sure\nP = '%d items' % 3") + QUOTED_PREAMBLES:
             yield {"pre": pre, "place": "literal_preamble", "fw": fw, "data": "std"}
             yield {"pre": pre, "place": "literal_preamble", "fw": fw, "data": "noimport"}
             yield {"pre": pre, "place": "literal_preamble", "fw": fw, "data": "two_models"}
